@@ -4,7 +4,7 @@ import json, os, sys
 ROOT = os.path.dirname(os.path.dirname(os.path.abspath(__file__)))
 ids = [json.loads(l)["id"] for l in open(os.path.join(ROOT, "properties.jsonl"))]
 
-COMMON_NOTE = ("Trusted base: the verifier itself (pyvc path exploration + proxy models + T1-T4 instrumentation, rx/rxeq automata, "
+COMMON_NOTE = ("Trusted base: the verifier itself (pyvc path exploration + proxy models + T1-T5 instrumentation, rx/rxeq automata, "
                "z3 5.1), CPython 3.12 for every concrete step, T-regex (leftmost match of the standard match relation), "
                "paper lemmas T-loop / T-sub / T-cat, A-len (records <= 256 chars), names separator-free. ")
 CLAIMS = {
@@ -66,7 +66,7 @@ for pid, (cat, text, ref, tech) in CLAIMS.items():
 na = [{"property_id": i, "reason": TODO.get(i, "contract files for this property are still being written in this session; not claimed until its obligations run")}
       for i in ids if i not in CLAIMS]
 m = {"version": 1, "setup_cmd": "./setup.sh",
-     "hooks": {"guard": "JASM_VERIF", "enable": "none: no file of /repo is instrumented or hooked; contracts are sidecar files under /verif/contracts and the T1-T4 AST instrumentation is applied in memory on every run",
+     "hooks": {"guard": "JASM_VERIF", "enable": "none: no file of /repo is instrumented or hooked; contracts are sidecar files under /verif/contracts and the T1-T5 AST instrumentation is applied in memory on every run",
                "baseline_off_cmd": "cd /repo && /venv/bin/python -m pytest -q -p no:cacheprovider --timeout=900", "source_commits": [], "add_only": True},
      "engines": [{"name": "pyvc+rxeq", "path": "/verif/vf", "serves_properties": sorted(CLAIMS),
                   "kind_free_text": "self-built deductive verifier: VC generation by symbolic execution of the real Python functions (proxy values, all paths, callee contracts), discharged by z3 and by a complete automata decision procedure for regular-language VCs"}],
